@@ -513,6 +513,61 @@ theorem rejected_row_keeps_col_calls (x : Ext) (cfg : Cfg) (s : SW) (cell : Byte
     (setRow x cfg s cell values o).1.sheetWritten = s.sheetWritten := by
   rw [rejected_row_noop x cfg s cell values o e h]
 
+/-! ## guards of the column calls; the `<cols>` element is never empty -/
+
+/-- **Guard of `SetColWidth`, both directions.** The call is accepted exactly when no row has been written yet, both
+column numbers lie in `MinColumns..MaxColumns` and the width (in quarters) is at most `MaxColumnWidth` (regenerated
+limits); there is no other reason for a refusal. -/
+theorem col_width_accepted_iff (s : SW) (a b w4 : Int) (p : Bytes) :
+    (setColWidth s a b w4 p).2 = none ↔
+      s.sheetWritten = false ∧ (Facts.MinColumns : Int) ≤ a ∧ a ≤ (Facts.MaxColumns : Int) ∧
+      (Facts.MinColumns : Int) ≤ b ∧ b ≤ (Facts.MaxColumns : Int) ∧ w4 ≤ 4 * (Facts.MaxColumnWidth : Int) := by
+  simp only [setColWidth, badCol]
+  repeat' split
+  all_goals simp_all
+  all_goals omega
+
+/-- **Guard of `SetColStyle`, both directions**: no row written yet, both columns in range, and the style id one of
+the workbook's `nStyles` cell formats. -/
+theorem col_style_accepted_iff (s : SW) (a b st : Int) (p : Bytes) :
+    (setColStyle s a b st p).2 = none ↔
+      s.sheetWritten = false ∧ (Facts.MinColumns : Int) ≤ a ∧ a ≤ (Facts.MaxColumns : Int) ∧
+      (Facts.MinColumns : Int) ≤ b ∧ b ≤ (Facts.MaxColumns : Int) ∧ 0 ≤ st ∧ st < s.nStyles := by
+  simp only [setColStyle, badCol]
+  repeat' split
+  all_goals simp_all
+  all_goals omega
+
+/-- **A refused column / pane call is a no-op**, whatever the reason of the refusal (order, column number, width,
+style id, pane options): the whole writer state — bytes, columns, pre-data, counters — is unchanged. -/
+theorem rejected_col_call_noop (s : SW) (a b v : Int) (ok : Bool) (p : Bytes) :
+    ((setColWidth s a b v p).2 ≠ none → (setColWidth s a b v p).1 = s) ∧
+    ((setColStyle s a b v p).2 ≠ none → (setColStyle s a b v p).1 = s) ∧
+    ((setPanes s ok p).2 ≠ none → (setPanes s ok p).1 = s) := by
+  refine ⟨?_, ?_, ?_⟩
+  · simp only [setColWidth]; repeat' split
+    all_goals simp
+  · simp only [setColStyle]; repeat' split
+    all_goals simp
+  · simp only [setPanes]; repeat' split
+    all_goals simp
+
+/-- **The `<cols>` element is never empty** (the schema's `CT_Cols` needs at least one `<col>`): an accepted
+SetColWidth / SetColStyle leaves at least one column entry, a non-empty column list is rendered as `<cols>` followed by
+its first `<col …/>`, and a worksheet without column entries gets no `<cols>` element at all. -/
+theorem cols_element_nonempty (s : SW) (hg : Good s.colStyles) (a b v : Int) (p : Bytes) :
+    ((setColWidth s a b v p).2 = none → (setColWidth s a b v p).1.colStyles ≠ []) ∧
+    ((setColStyle s a b v p).2 = none → (setColStyle s a b v p).1.colStyles ≠ []) ∧
+    renderCols [] = [] ∧
+    ∀ c cs, ∃ rest, renderCols (c :: cs) = lit "<cols>" ++ renderCol c ++ rest := by
+  refine ⟨?_, ?_, rfl, fun c cs => ⟨cs.flatMap renderCol ++ lit "</cols>", by simp [renderCols]⟩⟩
+  · simp only [setColWidth]; repeat' split
+    all_goals simp
+    all_goals exact wsSetColWidth_ne_nil _ hg _ _ (by omega) _
+  · simp only [setColStyle]; repeat' split
+    all_goals simp
+    all_goals exact wsSetColStyle_ne_nil _ hg _ _ _ (by omega)
+
 /-! ## non-vacuity -/
 
 def x0 : Ext := { bstr := id, unbstr := id }
